@@ -268,6 +268,8 @@ func runJob(j job) string {
 		return sencJob(j.data, j.cfg)
 	case "Y":
 		return xrefJob(j.data, parseCfg(j.cfg))
+	case "J":
+		return infoJob(j.data, j.cfg == "S")
 	}
 	return "badjob"
 }
@@ -430,6 +432,9 @@ func runChunk(jobs []job, res []string, lo, hi int) {
 			}
 			if jobs[k].kind == "C" {
 				res[k] = c + "\t-1\t0"
+			}
+			if jobs[k].kind == "J" {
+				res[k] = c + "\t-"
 			}
 			if jobs[k].kind == "Q" {
 				res[k] = c + "\t-\t0\t0\t0"
